@@ -78,3 +78,27 @@ def ceil_range(x, rel=1e-9):
 
 def thoo_depth_bound_arg(p):
     return (math.log(p["rounds"]) / 2.0 - math.log(1.0 / p["nu"])) / math.log(1.0 / p["rho"])
+
+
+def thoo_depth_bound_range(p):
+    """(lo, hi) for ceil((ln(n)/2 - ln(1/nu)) / ln(1/rho)).
+
+    The bound is evaluated twice: exactly (60-digit decimal arithmetic on the exact values of the
+    float parameters) and in IEEE doubles with the published formula.  Where both agree the bound
+    is that single integer - in particular when the argument is an exact integer (sqrt(n) nu a
+    power of 1/rho), where `<=` and `<` readings of the rule differ.  Where rounding makes the
+    double evaluation land on the other side of an integer, either value is accepted."""
+    import numpy as np
+    from decimal import Decimal, getcontext, ROUND_CEILING
+
+    getcontext().prec = 60
+    n, nu, rho = p["rounds"], p["nu"], p["rho"]
+    xe = (Decimal(n).ln() / 2 - (Decimal(1) / Decimal(float(nu))).ln()) / ((Decimal(1) / Decimal(float(rho))).ln())
+    k = xe.to_integral_value()
+    if abs(xe - k) < Decimal("1e-40"):
+        ce = int(k)
+    else:
+        ce = int(xe.to_integral_value(rounding=ROUND_CEILING))
+    xd = (np.log(n) / 2 - np.log(1 / nu)) / np.log(1 / rho)
+    cd = int(math.ceil(xd))
+    return min(ce, cd), max(ce, cd)
